@@ -156,6 +156,11 @@ func (a *analysis) calleesOfMethod(fn *types.Func, recv lset, pos token.Pos) []*
 // arguments' memory (it may *hold* the arguments: the contents edge is kept)
 var freshConstructors = map[string]bool{"fmt.Errorf": true, "errors.New": true, "regexp.Compile": true, "regexp.MustCompile": true, "strings.NewReplacer": true}
 
+// reflect constructors whose arguments are only type descriptors and sizes: the result is freshly allocated
+// memory that holds nothing of its arguments
+var typeOnlyConstructors = map[string]bool{"reflect.New": true, "reflect.MakeSlice": true, "reflect.MakeMap": true,
+	"reflect.MakeMapWithSize": true, "reflect.MakeChan": true, "reflect.Zero": true}
+
 var reflectMutators = map[string]bool{"Clear": true, "Grow": true, "Send": true, "Close": true, "TrySend": true}
 
 func extName(o *types.Func) string {
@@ -284,20 +289,30 @@ func (a *analysis) external(fn *types.Func, sig *types.Signature, recv lset, arg
 	}
 	reach := a.reaches(all)
 	name := extName(fn)
-	if reach && a.final {
-		a.extCalls[name] |= a.cur.flags
-	}
-	// reflect setters write through the receiver
+	// reflect setters write through the receiver: the written memory is what the receiver Value itself denotes
+	// (SHARED when the Value was obtained by navigating from shared memory — ValueOf/Elem/Index/Field of something
+	// that reaches SHARED evaluate to SHARED — and the fresh object when it denotes memory made by reflect.New,
+	// MakeSlice, … in this call); what the stored value refers to becomes reachable from that memory
+	isSetter := false
 	if r := sig.Recv(); r != nil {
 		if n, ok := deref(r.Type()).(*types.Named); ok && n.Obj().Pkg() != nil && n.Obj().Pkg().Path() == "reflect" && n.Obj().Name() == "Value" {
 			if strings.HasPrefix(fn.Name(), "Set") || reflectMutators[fn.Name()] {
-				owner := union(recv)
-				if a.reaches(recv) {
-					owner[locShared] = true
+				isSetter = true
+				a.recordSite("reflect-set", x, union(recv), false, false)
+				stored := lset{}
+				for _, s := range args {
+					stored.addAll(s)
 				}
-				a.recordSite("reflect-set", x, owner, false, false)
+				for l := range recv {
+					if l != locShared {
+						a.flow(a.contPts1(l), stored)
+					}
+				}
 			}
 		}
+	}
+	if reach && a.final && !isSetter {
+		a.extCalls[name] |= a.cur.flags
 	}
 	if fn.Pkg() != nil && fn.Pkg().Path() == "reflect" && (fn.Name() == "Copy" || fn.Name() == "Swapper") && len(args) > 0 {
 		owner := union(args[0])
@@ -313,15 +328,18 @@ func (a *analysis) external(fn *types.Func, sig *types.Signature, recv lset, arg
 		if !carriesRefs(sig.Results().At(i).Type()) {
 			continue
 		}
-		if reach && !freshConstructors[name] {
+		if reach && !freshConstructors[name] && !typeOnlyConstructors[name] {
 			rs[i][locShared] = true
 			continue
 		}
-		if freshConstructors[name] && a.final {
+		if (freshConstructors[name] || typeOnlyConstructors[name]) && a.final {
 			a.freshUsed[name] = true
 		}
-		l := a.newLoc(relPos(x.Pos())+":"+itoa(fset.Position(x.Pos()).Column)+":ext"+itoa(i), "ext", sig.Results().At(i).Type(), "result of "+name)
-		a.flow(a.contPts1(l), all)
+		// keyed by the END of the call: in a chain f(x).g(y) both calls start at the same position
+		l := a.newLoc(relPos(x.End())+":"+itoa(fset.Position(x.End()).Column)+":ext"+itoa(i), "ext", sig.Results().At(i).Type(), "result of "+name)
+		if !typeOnlyConstructors[name] {
+			a.flow(a.contPts1(l), all)
+		}
 		a.locs[l].fromReflect = fn.Pkg() != nil && fn.Pkg().Path() == "reflect"
 		rs[i][l] = true
 	}
